@@ -22,7 +22,7 @@ from translate import t_c09
 FIELDS = ['x', 'y', 'z']
 DKEYS = ['a', 'b', 'c', 'd']
 MISSING = {'missing': True}
-NEG_DEL_OK = [False]     # `del l[-1]` reports the key path [-1] on the pinned tree (finding F110)
+NEG_DEL_OK = [True]      # fixes/C09-F110.patch: `del l[-1]` reports the position (before: the key path [-1])
 _CLS = {}
 LOG = []
 OBJ_IDS = {}
@@ -125,7 +125,10 @@ def mirror(t, step):
     for v in c['vs']:
       node['items'].append([len(node['items']), v])
   elif n == 'rebind':
-    for p, v in c['pairs']:
+    pairs = c['pairs']
+    if node['k'] == 'list':       # List._sym_rebind applies the pairs in descending path order
+      pairs = sorted(pairs, key=lambda pv: key_cmp_tuple(pv[0]), reverse=True)
+    for p, v in pairs:
       mirror_write(get_at(node, p[:-1]), p[-1], v)
   elif n == 'update':
     for k, v in c['kvs']:
@@ -134,6 +137,9 @@ def mirror(t, step):
     node['items'] = []
   elif n == 'reverse':
     vals = [v for _, v in node['items']][::-1]
+    node['items'] = [[i, v] for i, v in enumerate(vals)]
+  elif n == 'sort':
+    vals = sorted(v for _, v in node['items']) if len(node['items']) > 1 else [v for _, v in node['items']]
     node['items'] = [[i, v] for i, v in enumerate(vals)]
   elif n == 'popitem':
     node['items'] = node['items'][:-1]
@@ -201,16 +207,29 @@ def list_edit(vals, c, is_node=None):
         ents.append((p_, vals[p_], v))
       out[p_] = v
     return out, ents
+  if n == 'clear' or (n == 'imul' and c['k'] <= 0):
+    return [], [(i, x, MISSING) for i, x in enumerate(vals)]
+  if n in ('reverse', 'sort'):
+    if n == 'reverse':
+      new = vals[::-1]
+      src = lambda i: L - 1 - i
+    else:
+      if L > 1 and not all(isinstance(x, int) and not isinstance(x, bool) for x in vals):
+        return None
+      if L <= 1:
+        return list(vals), []
+      new = sorted(vals)
+      src = lambda i: -1
+    return new, [(i, vals[i], new[i]) for i in range(L) if not (src(i) == i or same_atom(vals[i], new[i]))]
   if n == 'imul':
     k = c['k']
-    if k <= 0:
-      return [], None                    # clear(): what it reports is the `clear` rule
     copies = [x for _ in range(k - 1) for x in vals]
     return vals + copies, [(L + i, MISSING, x) for i, x in enumerate(copies)]
   raise AssertionError(n)
 
 
 LIST_EDITS = ('insert', 'delidx', 'remove', 'delslice', 'setslice', 'imul')
+LIST_MOVES = ('reverse', 'sort')
 
 
 def key_cmp_tuple(path):
@@ -373,6 +392,8 @@ def do_call(node, c):
     node.clear()
   elif n == 'reverse':
     node.reverse()
+  elif n == 'sort':
+    node.sort()
   elif n == 'popitem':
     node.popitem()
   else:
@@ -475,7 +496,7 @@ class Gen:
     if kind == 'dict':
       choices += [(2, 'delkey'), (2, 'update'), (1, 'clear'), (1, 'popitem')]
     if kind == 'list':
-      choices += [(2, 'append'), (3, 'extend'), (1, 'clear'), (1, 'reverse'), (2, 'insert'), (2, 'delidx'),
+      choices += [(2, 'append'), (3, 'extend'), (1, 'clear'), (2, 'reverse'), (1, 'sort'), (2, 'insert'), (2, 'delidx'),
                   (1, 'remove'), (3, 'setslice'), (2, 'delslice'), (1, 'imul')]
     name = r.weighted(choices)
     n = len(node['items'])
@@ -522,9 +543,14 @@ class Gen:
       return {'name': 'update', 'kvs': [[k, self.value(get_at(node, [k]))] for k in ks]}
     if name == 'popitem' and not node['items']:
       name = 'clear'
-    if name == 'reverse' and any(is_node(c) for _, c in node['items']):
-      name = 'clear'            # reversing symbolic children leaves stale paths (F02, property C01)
-    if name in ('clear', 'reverse', 'popitem'):
+    if name == 'reverse':
+      strs = [c for _, c in node['items'] if isinstance(c, str)]
+      if len(set(strs)) != len(strs):
+        name = 'clear'            # identity of equal strings at mirrored positions is an implementation detail
+    if name == 'sort' and len(node['items']) > 1 and not all(
+        isinstance(c, int) and not isinstance(c, bool) for _, c in node['items']):
+      name = 'reverse' if not any(isinstance(c, str) for _, c in node['items']) else 'clear'
+    if name in ('clear', 'reverse', 'popitem', 'sort'):
       return {'name': name}
     # rebind: 1-4 pairs below the receiver, on pairwise unrelated locations
     parents = all_nodes(node)
@@ -584,7 +610,7 @@ def _diff(pre, post, path=()):
   return [(list(path), pre, post)]
 
 
-CLEAR_NOTIFIES = [False]      # finding F55: clear / popitem / reverse notify nobody on the pinned tree
+CLEAR_NOTIFIES = [True]       # fixes/C09-F55.patch: clear / popitem / sort / reverse report what they removed / moved
 
 
 def canon_json(t):
@@ -613,8 +639,9 @@ class C09(Prop):
   driver = 'drv_c09'
   translators = [t_c09.run]
   case_timeout_s = 20
-  rule = ('histories of 1-5 calls (accessor writes, del, append, batched rebind with 1-4 unrelated paths, '
-          'Dict.update, clear/reverse/popitem) on trees of depth <= 3 mixing pg.Dict / pg.List with or without '
+  rule = ('histories of 1-5 calls (accessor writes, del, append, extend / +=, batched rebind with 1-4 unrelated paths, '
+          'Dict.update, clear / reverse / sort / popitem, and the position-shifting list calls insert, del l[i] / pop, '
+          'remove, slice assignment and del slice with any start / stop / step, *=) on trees of depth <= 3 mixing pg.Dict / pg.List with or without '
           'onchange_callback and pg.Object classes with and without an overridden _on_change; 15 % of the '
           'calls inside notify_on_change(False); every derived fact of every node is read after every call. '
           'A second, oracle-only stream inserts partial objects, pure-symbolic and non-deterministic values. '
@@ -625,7 +652,13 @@ class C09(Prop):
       'modelled, not verified: grouping / ordering / cache reset of _notify_field_updates, the write primitive and '
       'the cache-consulting recomputation of sym_nondefault (tied by correspondence); the three memoised facts are '
       'one cache in the model; notify_parents=False, handlers that mutate during notification, _on_parent_change / '
-      '_on_path_change, list insert/delete (re-indexing, C01/C02) and value specs are outside the model',
+      '_on_path_change and value specs are outside the model; a shrinking slice assignment inside '
+      'notify_on_change(False) leaves MISSING_VALUE placeholders (known finding C02-F03) and is neither generated '
+      'nor modelled',
+      'THE MODEL MIRRORS THE TREE WITH fixes/C09-F55.patch (clear / popitem / sort / reverse report what they removed '
+      '/ moved) AND fixes/C09-F110.patch (del l[-1] reports the position) APPLIED',
+      'position-shifting list calls: the contract is read on the edit (removed item -> MISSING at its former position, '
+      'MISSING -> inserted item at its new position, old -> new for replaced items)',
   ]
   assumptions = ['believed parent chain = real ancestor chain (C01) for the trees the generator builds',
                  'only fresh plain values are inserted (no relocation / cloning of existing nodes)']
@@ -824,13 +857,14 @@ class C09(Prop):
         return {'signature': 'event-while-silent:' + name,
                 'what': 'events %s delivered although notification is disabled / skipped / the call failed' % events[:2]}
       return None
-    if name in ('clear', 'reverse', 'popitem'):
+    if name in ('clear', 'reverse', 'popitem', 'sort'):
       changed = _diff(o['pre'], o['value'])
       subs = self.subscribing_ancestors(tree, step['recv'])
       if changed and subs and not events:
         return {'signature': 'no-event:' + name,
                 'what': '%s changed %s but no event reached the subscribing nodes %s' % (name, changed[:2], subs)}
-      return None
+      if not CLEAR_NOTIFIES[0]:
+        return None
     ids = [e['recv'] for e in events]
     if len(set(ids)) != len(ids):
       return {'signature': 'duplicate-event', 'what': 'a receiver got more than one event: %s' % ids}
@@ -838,7 +872,7 @@ class C09(Prop):
     for e in events:
       if e['recv'] not in sub_nodes:
         return {'signature': 'event-to-stranger', 'what': 'receiver %s is not a subscribing node of the tree' % e['recv']}
-    if name in LIST_EDITS:
+    if name in LIST_EDITS or name in LIST_MOVES or (name == 'clear' and get_at(tree, step['recv'])['k'] == 'list'):
       f = self.oracle_list_edit(tree, step, o, events, sub_nodes)
       return f or self.oracle_order(events, sub_nodes)
     # payload: true old / new values at the reported locations
@@ -856,7 +890,7 @@ class C09(Prop):
       reported[e['recv']] = locs
     # exactly the affected subscribing ancestors, each with exactly the changed locations below it
     changed = [c[0] for c in _diff(o['pre'], o['value'])]
-    written = self.written_locations(tree, step)
+    written = self.written_locations(tree, step, o)
     for nid, rp in sub_nodes.items():
       below = [l for l in written if l[:len(rp)] == rp and len(l) > len(rp) and self.really_written(o, l)]
       got = reported.get(nid)
@@ -905,8 +939,6 @@ class C09(Prop):
     if post != want_post:
       return {'signature': 'list-edit-result:' + c['name'],
               'what': '%s left %s, list semantics give %s' % (json.dumps(c)[:150], json.dumps(post)[:200], json.dumps(want_post)[:200])}
-    if ents is None:                    # `l *= k` with k <= 0 is clear()
-      ents = [(i, v, MISSING) for i, v in enumerate(vals)] if CLEAR_NOTIFIES[0] else []
     want = [[[pos_], old, new] for pos_, old, new in ents]
     got = {e['recv']: e['entries'] for e in events}
     for nid, rp in sub_nodes.items():
@@ -933,7 +965,7 @@ class C09(Prop):
     old, new = canon_at(o['pre'], loc), canon_at(o['value'], loc)
     return not (old == new and not isinstance(new, list))
 
-  def written_locations(self, tree, step):
+  def written_locations(self, tree, step, o=None):
     c = step['call']
     r = step['recv']
     if c['name'] in ('setkey', 'delkey'):
@@ -947,6 +979,11 @@ class C09(Prop):
       return [r + p for p, _ in c['pairs']]
     if c['name'] == 'update':
       return [r + [k] for k, _ in c['kvs']]
+    if c['name'] == 'clear':
+      return [r + [k] for k, _ in get_at(tree, r)['items']]
+    if c['name'] == 'popitem':
+      items = canon_at(o['pre'], r)[1] if o is not None else get_at(tree, r)['items']
+      return [r + [items[-1][0]]] if items else []
     return []
 
   def subscribing_ancestors(self, tree, path):
